@@ -312,6 +312,9 @@ func isStorageData(v ssa.Value) bool {
 // lessThan brings a strict or non-strict integer comparison into the form x < y, possibly
 // negated: a<b, b>a, !(a>=b), !(b<=a).
 func lessThan(c ssa.Value) (x, y ssa.Value, neg, ok bool) {
+	if _, isCall := c.(*ssa.Call); isCall {
+		c, _ = normE(c, nil, true) // a pure accessor such as hasChunk(block)
+	}
 	bo, isB := c.(*ssa.BinOp)
 	if !isB {
 		return nil, nil, false, false
@@ -583,12 +586,9 @@ func ruleGuardedReads(r *Report) {
 		prev := L.ReachFromAvoiding(rc, func(c *LCtx) bool { return guarded[fnName(c.Fn)] })
 		bad := ""
 		for ins, ss := range L.At {
-			fa, ok := ins.(*ssa.FieldAddr)
-			if !ok {
-				continue
-			}
-			fr, _ := fieldOf(fa)
-			if !(strings.HasPrefix(fr.Struct, "struct{fill ") && fr.Field == "data") {
+			// an element of a block's value array is addressed
+			ia, ok := ins.(*ssa.IndexAddr)
+			if !ok || !isStorageData(ia.X) {
 				continue
 			}
 			for _, s := range ss {
@@ -739,11 +739,11 @@ func ruleExpire(r *Report) {
 	if vac != nil {
 		var del *ssa.Call
 		var delFn *ssa.Function
-		withClosures(vac, func(f *ssa.Function) {
+		for _, f := range deepFuncs(vac) {
 			for _, c := range callsTo(f, false, "(*column.Txn).DeleteAt", "(*column.Txn).deleteAt") {
 				del, delFn = c.(*ssa.Call), f
 			}
-		})
+		}
 		if del == nil {
 			h.Unknown("(*column.Collection).vacuum/delete", r.P.Pos(vac.Pos()), "DeleteAt in the cleanup not recognised")
 		} else {
@@ -782,14 +782,14 @@ func ruleExpire(r *Report) {
 			h.Check(okG && afterG && same, "(*column.Collection).vacuum/guard", r.P.InstrPos(del), "DeleteAt(row) ⇐ ok ∧ now.After(deadline)", "the cleanup can delete a row without `ok && now.After(deadline)` holding for that row")
 			// selection With(expire)
 			sel := false
-			withClosures(vac, func(f *ssa.Function) {
+			for _, f := range deepFuncs(vac) {
 				for _, c := range callsTo(f, false, "(*column.Txn).Range") {
 					cc, _, _ := callCommon(c)
-					if w, ok := cc.Args[0].(*ssa.Call); ok && calleeIs(&w.Call, "(*column.Txn).With") {
+					if w, ok := norm(cc.Args[0]).(*ssa.Call); ok && calleeIs(&w.Call, "(*column.Txn).With") {
 						sel = true
 					}
 				}
-			})
+			}
 			h.Check(sel, "(*column.Collection).vacuum/selection", r.P.Pos(vac.Pos()), "iterates With(expire)", "the cleanup does not restrict itself to rows holding an expiration")
 		}
 	}
@@ -839,10 +839,10 @@ func ruleExpire(r *Report) {
 		okPos, okZero := false, false
 		for _, ret := range returnsOf(fn) {
 			pos := edgeGuarded(ret.Block(), func(c ssa.Value) (bool, bool) {
-				bo, ok := c.(*ssa.BinOp)
-				if ok && bo.Op == token.GTR && sameExpr(bo.X, fn.Params[0]) {
-					if z, isC := constInt(bo.Y); isC && z == 0 {
-						return true, true
+				// 0 < ttl, in any spelling
+				if x, y, neg, ok := lessThan(c); ok && sameExpr(y, fn.Params[0]) {
+					if z, isC := constInt(x); isC && z == 0 {
+						return true, !neg
 					}
 				}
 				return false, false
